@@ -706,6 +706,59 @@ Proof.
   - rewrite F. reflexivity.
 Qed.
 
+(* ---------- SRC.toJSON: the fixed part (six header fields, eight hex words, the 32-byte reference code) ---------- *)
+Definition src_fixed : reader (N * N * N * N * N * N * list N * bytes) :=
+  v <- get_int 1 ;; fl <- get_int 1 ;; r1 <- get_int 1 ;; wc <- get_int 1 ;; r2 <- get_int 2 ;; sz <- get_int 2 ;;
+  ws <- read_n 8 (get_int 4) ;; asc <- get_mem 32 ;; ret (v, fl, r1, wc, r2, sz, ws, asc).
+
+Definition hexkey : name := Eval cbv in (L "self.hexData" ++ [46; 48]%N).
+Definition src_fixed_of (s : sst) :=
+  (be_val (mem_of s (L "self.version")) 0, int_of s (L "self.flags"), int_of s (L "self.reserved1B"), int_of s (L "self.wordCount"),
+   int_of s (L "self.reserved2B"), int_of s (L "self.size"), rev (map Z.to_N (values_of (s_ints s) hexkey)),
+   mem_of s (L "self.asciiString")).
+
+Definition src_head_agrees (d : bytes) : Prop :=
+  match run prog_src_head (init d) with
+  | RFall s => src_fixed d = Some (src_fixed_of s, s_rest s)
+  | RErr => src_fixed d = None
+  | _ => False
+  end.
+
+Theorem src_head_correct : forall d, src_head_agrees d.
+Proof.
+  intro d. unfold src_head_agrees.
+  do 72 (destruct d as [|?a d]; [cbv -[be_val Z.of_N]; reflexivity|]).
+  unfold prog_src_head, init. do 9 step. cbn [run].
+  cbv -[be_val Z.of_N Z.to_N]. rewrite !N2Z.id. reflexivity.
+Qed.
+
+(* parse_src is the fixed part followed by the word-count check and the optional callout subsection *)
+Definition src_rest (x : N * N * N * N * N * N * list N * bytes) : reader (option src_t) :=
+  let '(v, fl, r1, wc, r2, sz, ws, asc) := x in
+  if (9 <? wc)%N then fail
+  else if Parse.has fl HeaderFlags_additionalSections then
+    cs <- parse_callouts ;;
+    match cs with
+    | None => ret None
+    | Some cs => ret (Some {| s_version := v; s_flags := fl; s_res1 := r1; s_wcount := wc; s_res2 := r2; s_size := sz;
+                              s_words := ws; s_ascii := asc; s_callouts := Some cs |})
+    end
+  else ret (Some {| s_version := v; s_flags := fl; s_res1 := r1; s_wcount := wc; s_res2 := r2; s_size := sz;
+                    s_words := ws; s_ascii := asc; s_callouts := None |}).
+
+Lemma parse_src_split d : parse_src d = (x <- src_fixed ;; src_rest x) d.
+Proof.
+  unfold parse_src, src_fixed, bind.
+  destruct (get_int 1 d) as [[v d1]|]; [|reflexivity].
+  destruct (get_int 1 d1) as [[fl d2]|]; [|reflexivity].
+  destruct (get_int 1 d2) as [[r1 d3]|]; [|reflexivity].
+  destruct (get_int 1 d3) as [[wc d4]|]; [|reflexivity].
+  destruct (get_int 2 d4) as [[r2 d5]|]; [|reflexivity].
+  destruct (get_int 2 d5) as [[sz d6]|]; [|reflexivity].
+  destruct (read_n 8 (get_int 4) d6) as [[ws d7]|]; [|reflexivity].
+  destruct (get_mem 32 d7) as [[asc d8]|]; reflexivity.
+Qed.
+
 Theorem src_readers_agree :
   (forall d, fru_agrees d) /\ (forall d, pce_agrees d) /\ (forall d, mru_agrees d) /\ (forall d, head_agrees d) /\
   (forall f size cur acc d, parse_subs (S f) size cur acc d = subs_step f size cur acc d).
